@@ -1007,6 +1007,13 @@ std::string sqf::parser::preprocessor::impl_default::instance::parse_file(::sqf:
                 sstream << c;
             continue;
         }
+        // line ends that were joined by a backslash are made up for after the end of the joined line
+        size_t owed_newlines = 0;
+        if (c == '\n' && fileinfo.swallowed_newlines > 0)
+        {
+            owed_newlines = fileinfo.swallowed_newlines;
+            fileinfo.swallowed_newlines = 0;
+        }
         switch (c)
         {
             case '"':
@@ -1048,6 +1055,11 @@ std::string sqf::parser::preprocessor::impl_default::instance::parse_file(::sqf:
                         return res;
                     }
                     sstream << res;
+                    if (fileinfo.swallowed_newlines > 0)
+                    { // a directive continued over several lines
+                        sstream << std::string(fileinfo.swallowed_newlines, '\n');
+                        fileinfo.swallowed_newlines = 0;
+                    }
                     break;
                 }
             }
@@ -1107,6 +1119,10 @@ std::string sqf::parser::preprocessor::impl_default::instance::parse_file(::sqf:
                     wordstream << c;
                 was_new_line = false;
             } break;
+        }
+        if (owed_newlines > 0)
+        {
+            sstream << std::string(owed_newlines, '\n');
         }
     }
 
